@@ -464,6 +464,10 @@ class Interp:
         return simp_top(t)
 
     def _ex(self, n, fr):
+        if isinstance(n, ast.SetComp):
+            # {f(x) for x in xs}: the SET of the values (duplicates collapse) - not the list comprehension
+            lc = ast.copy_location(ast.ListComp(elt=n.elt, generators=n.generators), n)
+            return CALL(S('set'), [self._ex(lc, fr)])
         if isinstance(n, ast.Constant):
             return C(n.value)
         if isinstance(n, ast.Name):
@@ -1135,7 +1139,15 @@ class Interp:
                     # d.setdefault(k, x) as a statement: d[k] = x unless k is there already (first one wins)
                     self.accumulate(name, 'setdefidx', self.ex(v.args[0], fr), self.ex(v.args[1], fr), fr, s)
                     return
-                if v.func.attr in MUTATING_METHODS and fr.env[name][0] in ('list', 'dict', 'comp', 'cat', 'accum', 'upd', 'bin'):
+                if v.func.attr == 'sort' and not v.args and name not in self.outer_names(fr) and fr.env[name][0] in ('list', 'comp', 'cat', 'accum', 'upd', 'bin', 'call'):
+                    # xs.sort(**kw) on a local list: xs = sorted(xs, **kw)
+                    kw_ = tuple((k_.arg, self.ex(k_.value, fr)) for k_ in v.keywords)
+                    fr.env[name] = ('call', S('sorted'), (fr.env[name],), kw_)
+                    return
+                if v.func.attr == 'reverse' and not v.args and not v.keywords and name not in self.outer_names(fr) and fr.env[name][0] in ('list', 'comp', 'cat', 'accum', 'upd', 'bin', 'call'):
+                    fr.env[name] = CALL(S('list'), [CALL(S('reversed'), [fr.env[name]])])
+                    return
+                if v.func.attr in MUTATING_METHODS and v.func.attr not in ('append', 'extend', 'add', 'update') and fr.env[name][0] in ('list', 'dict', 'comp', 'cat', 'accum', 'upd', 'bin'):
                     raise Unknown('in-place %s() on the local container %s' % (v.func.attr, name))
             n0 = len(self.sink)
             if (isinstance(v, ast.Call) and isinstance(v.func, ast.Attribute) and v.func.attr in ('append', 'extend') and len(v.args) == 1
@@ -1322,6 +1334,10 @@ class Interp:
             self.emit(Eff('addc', fr.func, s, recv=prob, cmp=v, name=name))
         else:
             self.emit(Eff('setobj', fr.func, s, recv=prob, expr=v, name=name))
+
+    def outer_names(self, fr):
+        """names whose updates are recorded as loop effects rather than applied to the environment (see is_outer)"""
+        return {k for k in fr.env if self.is_outer(k, fr)}
 
     def accumulate(self, name, op, index, val, fr, s):
         cur0 = fr.env.get(name)
